@@ -261,7 +261,7 @@ inline Plan g_current_plan;
 inline char g_crash_path[512];
 inline char g_crash_buf[1 << 20];
 inline size_t g_crash_len = 0;
-inline unsigned g_run_alarm_s = 30; // watchdog per run (SIGALRM -> treated like a crash: "hang")
+inline unsigned g_run_alarm_s = 60; // watchdog per run (SIGALRM -> treated like a crash: "hang")
 inline unsigned g_isolated_alarm_s = 0; // watchdog of forked executions (0: the same); shortened while a hang is being minimised
 inline unsigned g_shrink_max_reruns = 3000;
 
